@@ -226,7 +226,8 @@ def load_index(interp, obj, idx, g):
             try:
                 v = load_index(interp, obj, i, X.And(g, gd))
             except IndexError:
-                if interp.feasible(X.And(g, gd)):
+                # the alternative alone is tried first: its guard does not mention the path, so the answer is shared by all paths
+                if interp.feasible(gd) and interp.feasible(X.And(g, gd)):
                     interp.do_raise(X.And(g, gd), "IndexError", "index out of range", types.SimpleNamespace(fname="<index>"), None)
                 continue
             acc = v if acc is None else merge(gd, v, acc)
@@ -289,7 +290,7 @@ def store_index(interp, obj, idx, v, g):
                 try:
                     _guarded_store(obj, i, v, X.And(g, gd))
                 except IndexError:
-                    if interp.feasible(X.And(g, gd)):
+                    if interp.feasible(gd) and interp.feasible(X.And(g, gd)):
                         interp.do_raise(X.And(g, gd), "IndexError", "index out of range", types.SimpleNamespace(fname="<store>"), None)
             return
         _guarded_store(obj, idx, v, g)
